@@ -38,6 +38,9 @@ def _fragments(meta):
     if meta.get('quantified'):
         # first-order arguments (no identity: IdentityIndiscernability is not modelled): NodeConsts / MaxConsts / new_constant
         out += [dict(modal=False, quant=True, ident=False), dict(modal=bool(meta['modal']), quant=True, ident=False)]
+        if not meta.get('marks'):
+            # the classical family carries identity: IdentityIndiscernability / PredNodes / the world-indexed `branch.has`
+            out += [dict(modal=bool(meta['modal']), quant=True, ident=True)] * 2
     return out
 
 
@@ -51,10 +54,20 @@ def make_jobs(ctx: Ctx, data, rng, per_modal, per_plain):
             f = fr[k % len(fr)]
             if k % 2:
                 prem, conc = tabrun.schema_argument(rng, depth=rng.choice([1, 2]), **f)
-                dist['schema-' + ('fo-' if f['quant'] else '') + ('modal' if f['modal'] else 'prop')] += 1
+                dist['schema-' + ('id-' if f['ident'] else '') + ('fo-' if f['quant'] else '') + ('modal' if f['modal'] else 'prop')] += 1
             else:
                 prem, conc = tabrun.rand_argument(rng, depth=rng.choice([2, 3]) if not f['quant'] else 2, **f)
-                dist['random-' + ('fo-' if f['quant'] else '') + ('modal' if f['modal'] else 'prop')] += 1
+                dist['random-' + ('id-' if f['ident'] else '') + ('fo-' if f['quant'] else '') + ('modal' if f['modal'] else 'prop')] += 1
+            jobs.append(tabrun.job_for(len(jobs), lg, prem, conc, opts=tabrun.OPTS[rng.randrange(4)], mode='step',
+                                       max_steps=ctx.scale(150, 400), probe=True))
+    # the identity rule (classical family only): schemata whose premises interact through identities, so that
+    # IdentityIndiscernability really fires (Leibniz-style arguments, also inside modal contexts)
+    for lg in names:
+        if data[lg].get('marks') or not data[lg].get('quantified'):
+            continue
+        for k in range(ctx.scale(5, 24)):
+            prem, conc = tabrun.schema_argument(rng, modal=bool(data[lg]['modal']), quant=True, ident=True, depth=1)
+            dist['identity-schema'] += 1
             jobs.append(tabrun.job_for(len(jobs), lg, prem, conc, opts=tabrun.OPTS[rng.randrange(4)], mode='step',
                                        max_steps=ctx.scale(150, 400), probe=True))
     return jobs, dist
